@@ -243,24 +243,38 @@ pub mod fold_c {
         }
     }
     /// the simplification table of AND / OR is Kleene-correct for every operand shape
-    /// (opaque sub-expression with any truth value incl. NULL, TRUE / FALSE literal, NULL literal)
-    #[kani::proof]
-    #[kani::unwind(4)]
-    fn c02_o5_fold_binary_step() {
+    /// (opaque sub-expression with any truth value incl. NULL, TRUE / FALSE literal, NULL literal);
+    /// one harness per operator and per left-operand shape keeps each to about a minute
+    fn fold_step(is_and: bool, l: Expr) {
         unsafe {
             LEAF_TV = [kani::any(), kani::any()];
         }
-        let l = any_operand();
         let r = any_operand();
-        let is_and: bool = kani::any();
         let op = if is_and { BinaryOp::And } else { BinaryOp::Or };
         let (lb, rb) = (Box::new(l), Box::new(r));
         let out = KFold.kx_c02_fold_binary(&lb, &op, &rb);
         let want = if is_and { and3(eval3(&l), eval3(&r)) } else { or3(eval3(&l), eval3(&r)) };
         assert!(eval3(&out) == want);
-        kani::cover!(matches!(out, Expr::Literal(_)));
-        kani::cover!(matches!(out, Expr::Leaf(_)));
-        kani::cover!(matches!(out, Expr::BinaryExpr { .. }));
+    }
+    #[kani::proof]
+    #[kani::unwind(4)]
+    fn c02_o5_fold_and_leaf_left() {
+        fold_step(true, Expr::Leaf(0));
+    }
+    #[kani::proof]
+    #[kani::unwind(4)]
+    fn c02_o5_fold_and_literal_left() {
+        fold_step(true, if kani::any() { Expr::Literal(ScalarValue::Boolean(kani::any())) } else { Expr::Literal(ScalarValue::Null) });
+    }
+    #[kani::proof]
+    #[kani::unwind(4)]
+    fn c02_o5_fold_or_leaf_left() {
+        fold_step(false, Expr::Leaf(0));
+    }
+    #[kani::proof]
+    #[kani::unwind(4)]
+    fn c02_o5_fold_or_literal_left() {
+        fold_step(false, if kani::any() { Expr::Literal(ScalarValue::Boolean(kani::any())) } else { Expr::Literal(ScalarValue::Null) });
     }
 }
 
